@@ -113,3 +113,22 @@ Example C19_de_nonvacuous :
        [PreDe 1; PreDe 0; PostDe 0 0; PreDe 2; PreDe 0; PostDe 0 1; PostDe 2 2]
      = [PostDe 0 1; PostDe 2 2].
 Proof. split; vm_compute; reflexivity. Qed.
+
+(* a transit class: Root (2, hooks) -> List[Mid] (1, opted in, *no* hooks) -> Optional[Leaf] (0, hooks).
+   C19_context applies to the Leaf: its hooks receive the caller's token although the class in between
+   declares no hook of its own (onpath does not ask for hooks on the way) *)
+Definition E_ex3 : env :=
+  [ Build_cinfo [Build_field 0 TInt false] true true false false true;
+    Build_cinfo [Build_field 1 (TOpt (TDc 0)) true] false false false false true;
+    Build_cinfo [Build_field 2 (TList (TDc 1)) false] true true false false true ].
+Definition v_ex3 : val := VInst 2 1 1 [(2, VList [VInst 1 2 2 [(1, VInst 0 3 3 [(0, VInt)])]])].
+Example C19_context_transit_nonvacuous :
+  env_union_free E_ex3 = true /\ wt E_ex3 v_ex3 (TDc 2) = true /\ onpath E_ex3 true v_ex3 0 3 3 /\
+  pack E_ex3 true Mixin v_ex3 (TDc 2) true CTok = (true, [Pre 2 1 CTok; Pre 0 3 CTok; Post 0 3 CTok; Post 2 1 CTok]).
+Proof.
+  repeat split; try (vm_compute; reflexivity).
+  eapply onpath_field with (n := 2); [reflexivity|left; reflexivity|].
+  eapply onpath_list with (x := VInst 1 2 2 [(1, VInst 0 3 3 [(0, VInt)])]); [left; reflexivity|].
+  eapply onpath_field with (n := 1); [reflexivity|left; reflexivity|].
+  apply onpath_here. reflexivity.
+Qed.
